@@ -37,7 +37,7 @@ typedef struct {
 static ref_task_t REF[DTD_MAX_TASKS];
 static int64_t ref_final[DTD_MAX_TILES];
 static int tile_flushed[DTD_MAX_TILES];
-static int last_writer_task[DTD_MAX_TILES];
+static int last_writer_task[DTD_MAX_TILES], last_writer_param[DTD_MAX_TILES];
 
 static int64_t mix(int64_t a, int64_t b)
 {
@@ -69,6 +69,7 @@ static void compute_reference(void)
             REF[i].out_val[p] = mix(h, 100 + p);
             val[d->tile[p]] = REF[i].out_val[p];
             last_writer_task[d->tile[p]] = i;
+            last_writer_param[d->tile[p]] = p;
         }
         REF[i].exp_rank = d->affinity >= 0 ? d->tile[d->affinity] % SH.nranks : -1;
     }
@@ -78,9 +79,12 @@ static void compute_reference(void)
 /* ---- run-time observation ---- */
 typedef struct { uint64_t begin, end; int rank, count; } obs_t;
 static obs_t OBS[DTD_MAX_TASKS];
+static int64_t OBS_out[DTD_MAX_TASKS][DTD_MAX_PARAMS];   /* value actually written by (task, param) */
+
 /* per (rank, tile) in-flight state for C04 */
 static int inflight_w[16][DTD_MAX_TILES], inflight_r[16][DTD_MAX_TILES];
 static int readers_since_write[16][DTD_MAX_TILES];
+static unsigned char INFL[16][DTD_MAX_TILES][DTD_MAX_TASKS];   /* 0 not running, 1 reading, 2 writing */
 static int insert_done[DTD_MAX_TASKS];     /* insertion (by rank that runs it) has returned */
 
 static int c3(void) { return PROP == 3; }
@@ -113,22 +117,30 @@ int dtdh_body(int rank, int id, int nparams, int64_t **p)
         if (k < 0) { tl[nt] = d->tile[i]; tw[nt] = 0; k = nt++; } else sim_probe(PR_SAME_TILE_TWICE);
         if (writes(d->mode[i])) tw[k] = 1;
     }
-    /* C04: conflicting accesses on the same rank must not be in flight */
+    /* C04: conflicting accesses on the same rank must not be in flight.  Classes say which hazard
+     * was not enforced: war- (a writer and an EARLIER-inserted reader overlap), raw- (a reader or writer
+     * overlaps an earlier-inserted writer) */
     for (int j = 0; j < nt; j++) {
         int t = tl[j];
+        for (int q = 0; q < SH.ntasks && c4() && !RES->vclass; q++) {
+            if (q == id || !INFL[rank][t][q]) continue;
+            int qw = INFL[rank][t][q] == 2;
+            if (!tw[j] && !qw) continue;            /* two readers may share */
+            int earlier_is_reader = q < id ? !qw : !tw[j];
+            hx_fail(RES, earlier_is_reader ? "war-overlap" : "raw-overlap",
+                    "task %d starts %s tile %d on rank %d while task %d (inserted %s it) is still %s it", id, tw[j] ? "writing" : "reading", t, rank, q,
+                    q < id ? "before" : "after", qw ? "writing" : "reading");
+        }
         if (tw[j]) {
-            if (c4() && (inflight_w[rank][t] || inflight_r[rank][t]))
-                hx_fail(RES, "conflict-overlap", "task %d starts writing tile %d on rank %d while %d writer(s) and %d reader(s) of it are running", id, t, rank, inflight_w[rank][t], inflight_r[rank][t]);
             if (readers_since_write[rank][t] >= 2) sim_probe(PR_WRITER_AFTER_READERS);
             inflight_w[rank][t]++;
             readers_since_write[rank][t] = 0;
         } else {
-            if (c4() && inflight_w[rank][t])
-                hx_fail(RES, "conflict-overlap", "task %d starts reading tile %d on rank %d while a writer of it is running", id, t, rank);
             if (inflight_r[rank][t]) sim_probe(PR_READERS_OVERLAP);
             inflight_r[rank][t]++;
             readers_since_write[rank][t]++;
         }
+        INFL[rank][t][id] = tw[j] ? 2 : 1;
     }
     /* read phase */
     int64_t h = d->id + 1;
@@ -139,8 +151,23 @@ int dtdh_body(int rank, int id, int nparams, int64_t **p)
         int64_t b = p[i][0];
         rd[i] = b;
         for (int j = 1; j < SH.nelems; j++) if (p[i][j] != b + j && c3()) hx_fail(RES, "torn-data", "task %d param %d (tile %d): element %d is %lld, expected %lld", id, i, d->tile[i], j, (long long)p[i][j], (long long)(b + j));
-        if (c3() && b != REF[id].in_expect[i])
-            hx_fail(RES, "wrong-input", "task %d param %d (tile %d, mode %d) read %lld, sequential execution gives %lld", id, i, d->tile[i], d->mode[i], (long long)b, (long long)REF[id].in_expect[i]);
+        if (c3() && b != REF[id].in_expect[i]) {
+            /* classify: value of a later-inserted writer (write-after-read not enforced), an older
+             * version (read-after-write not enforced), or something nobody wrote */
+            int later = -1, older = -1;
+            for (int j = 0; j < SH.ntasks; j++) {
+                dtd_task_desc_t *e = &SH.tasks[j];
+                if (e->is_flush || j == id) continue;
+                for (int q = 0; q < e->nparams; q++) if (e->tile[q] == d->tile[i] && writes(e->mode[q]) && REF[j].out_val[q] == b) { if (j > id) later = j; else older = j; }
+            }
+            if (b == 1000 * (int64_t)(d->tile[i] + 1)) older = -2;
+            if (later >= 0)
+                hx_fail(RES, "war-violation", "task %d param %d (tile %d) read %lld = the value written by LATER-inserted task %d; sequential execution gives %lld", id, i, d->tile[i], (long long)b, later, (long long)REF[id].in_expect[i]);
+            else if (older != -1)
+                hx_fail(RES, "raw-violation", "task %d param %d (tile %d) read the stale value %lld (from %s %d); sequential execution gives %lld", id, i, d->tile[i], (long long)b, older == -2 ? "the initial contents, task" : "earlier task", older, (long long)REF[id].in_expect[i]);
+            else
+                hx_fail(RES, "wrong-input", "task %d param %d (tile %d, mode %d) read %lld, sequential execution gives %lld", id, i, d->tile[i], d->mode[i], (long long)b, (long long)REF[id].in_expect[i]);
+        }
         h = mix(h, b + 7 * i);
     }
     if (d->delay) sim_delay((uint64_t)d->delay); else sim_yield();
@@ -151,15 +178,16 @@ int dtdh_body(int rank, int id, int nparams, int64_t **p)
         for (int q = 0; q < nparams; q++) if (q != i && d->tile[q] == d->tile[i] && writes(d->mode[q])) aliased_w = 1;
         (void)aliased_w;
         if (c4() && p[i][0] != rd[i] && !RES->vclass)
-            hx_fail(RES, "conflict-overlap", "task %d param %d (tile %d): value changed under a running reader", id, i, d->tile[i]);
+            hx_fail(RES, "value-changed-under-reader", "task %d param %d (tile %d): value changed under a running reader", id, i, d->tile[i]);
     }
     /* write phase */
     for (int i = 0; i < nparams; i++) if (p[i] && writes(d->mode[i])) {
         int64_t v = mix(h, 100 + i);
         for (int j = 0; j < SH.nelems; j++) p[i][j] = v + j;
+        OBS_out[id][i] = v;
     }
     if (d->delay) sim_delay((uint64_t)d->delay / 2 + 1);
-    for (int j = 0; j < nt; j++) { if (tw[j]) inflight_w[rank][tl[j]]--; else inflight_r[rank][tl[j]]--; }
+    for (int j = 0; j < nt; j++) { if (tw[j]) inflight_w[rank][tl[j]]--; else inflight_r[rank][tl[j]]--; INFL[rank][tl[j]][id] = 0; }
     o->end = sim_stamp();
     if (getenv("VERIF_MPI_TRACE")) fprintf(stderr, "[dtd t=%llu] rank %d BODY task %d done\n", (unsigned long long)sim_now(), rank, id);
     return 0;
@@ -394,7 +422,9 @@ static void run(const hx_plan_t *p, hx_result_t *res)
         if (f) { fwrite(&SH, sizeof(SH), 1, f); fclose(f); }
     }
     memset(OBS, 0, sizeof(OBS));
+    memset(OBS_out, 0, sizeof(OBS_out));
     memset(inflight_w, 0, sizeof(inflight_w));
+    memset(INFL, 0, sizeof(INFL));
     memset(inflight_r, 0, sizeof(inflight_r));
     memset(readers_since_write, 0, sizeof(readers_since_write));
     setenv("PARSEC_MCA_mca_sched", SCHEDS[hx_knob(p, "sched", 0) % NSCHED], 1);
@@ -440,7 +470,7 @@ static void run(const hx_plan_t *p, hx_result_t *res)
                         if (e->tile[b] != w->tile[a]) continue;
                         if (!writes(w->mode[a]) && !writes(e->mode[b])) continue;
                         if (OBS[i].begin < OBS[j].end) {
-                            hx_fail(res, "order-violation", "task %d (%s tile %d) began at stamp %llu before earlier-inserted task %d (%s) ended at %llu on rank %d",
+                            hx_fail(res, writes(e->mode[b]) ? "raw-order-violation" : "war-order-violation", "task %d (%s tile %d) began at stamp %llu before earlier-inserted task %d (%s) ended at %llu on rank %d",
                                     i, writes(w->mode[a]) ? "writes" : "reads", w->tile[a], (unsigned long long)OBS[i].begin, j, writes(e->mode[b]) ? "writes" : "reads",
                                     (unsigned long long)OBS[j].end, OBS[i].rank);
                             break;
@@ -454,9 +484,13 @@ static void run(const hx_plan_t *p, hx_result_t *res)
         for (int k = 0; k < SH.ntiles && !res->vclass; k++) {
             if (!tile_flushed[k]) continue;
             if (!SH.final_valid[k]) { hx_fail(res, "flush-wrong-value", "owner of tile %d did not publish a final value", k); break; }
-            for (int j = 0; j < SH.nelems; j++) if (SH.final_[k][j] != ref_final[k] + j) {
+            /* C03: the sequential value.  C17: the value the last writer in insertion order ACTUALLY
+             * produced in this run (its inputs are C03's business), or the initial contents */
+            int64_t want = ref_final[k];
+            if (PROP == 17) want = last_writer_task[k] >= 0 ? OBS_out[last_writer_task[k]][last_writer_param[k]] : 1000 * (int64_t)(k + 1);
+            for (int j = 0; j < SH.nelems; j++) if (SH.final_[k][j] != want + j) {
                 hx_fail(res, PROP == 17 ? "flush-wrong-value" : "wrong-final", "tile %d element %d on its owner rank %d is %lld after flush+wait; last writer in insertion order (task %d) produced %lld",
-                        k, j, k % SH.nranks, (long long)SH.final_[k][j], last_writer_task[k], (long long)(ref_final[k] + j));
+                        k, j, k % SH.nranks, (long long)SH.final_[k][j], last_writer_task[k], (long long)(want + j));
                 break;
             }
         }
